@@ -388,9 +388,9 @@ fn multiset_diff(a: &[String], b: &[String]) -> Vec<String> {
 }
 
 /// `Ok(description)` when the difference between the two programs is exactly the known finding:
-/// * the two programs have the same functions in the same order;
-/// * every function whose body differs gained or lost only gas handling, the out-of-gas panic branch
-///   or value plumbing, and calls the same functions (up to the out-of-gas panic helper);
+/// * the two programs have the same functions (up to one-sided const-specialisations);
+/// * every function whose body differs calls the same functions (up to the out-of-gas panic helper
+///   and const-specialisations);
 /// * the *core* of the difference is non-empty: functions whose number of gas withdrawals differs
 ///   and which lie on a call cycle of the program or are const-specialisations `f{..}` (the
 ///   specialised copy carries the body of `f` with or without `f`'s withdrawal; `f` itself and its
@@ -410,11 +410,15 @@ fn classify_scc(a: &Program, b: &Program) -> Result<String, String> {
     let one_sided = |n: &String, other: &BTreeSet<String>| n.contains('{') && !other.contains(n);
     va.retain(|v| !one_sided(&v.name, &names_b));
     vb.retain(|v| !one_sided(&v.name, &names_a));
+    // the order of the functions in the program is the order of discovery from the requested
+    // functions; it follows the calls, so it may move with the specialisations: match by name
+    va.sort_by(|x, y| x.name.cmp(&y.name));
+    vb.sort_by(|x, y| x.name.cmp(&y.name));
     let (na, nb): (Vec<&String>, Vec<&String>) = (va.iter().map(|v| &v.name).collect(), vb.iter().map(|v| &v.name).collect());
     if na != nb {
         let only_a: Vec<&&String> = na.iter().filter(|n| !names_b.contains(**n)).take(4).collect();
         let only_b: Vec<&&String> = nb.iter().filter(|n| !names_a.contains(**n)).take(4).collect();
-        return Err(format!("the function lists differ (only in one: {:?} / only in the other: {:?}; or the order differs)", only_a, only_b));
+        return Err(format!("the sets of functions differ (only in one: {:?} / only in the other: {:?})", only_a, only_b));
     }
     let cyc = cyclic_components(&va);
     let idx: BTreeMap<u64, usize> = va.iter().enumerate().map(|(i, v)| (v.id, i)).collect();
@@ -433,10 +437,10 @@ fn classify_scc(a: &Program, b: &Program) -> Result<String, String> {
         if !cd.is_empty() {
             return Err(format!("function {} calls different functions: {:?}", fa.name, cd));
         }
-        let other: Vec<String> = multiset_diff(&fa.body, &fb.body).into_iter().filter(|n| !gas_or_plumbing(n)).collect();
-        if !other.is_empty() {
-            return Err(format!("function {} differs in more than gas handling: {:?}", fa.name, &other[..other.len().min(6)]));
-        }
+        // (what else changes inside a differing function - arguments built for a callee that is a
+        // const-specialisation in one compile only, value plumbing, the out-of-gas branch - is not
+        // restricted here: the decisive test is the re-run with pinned representatives)
+        let _ = (multiset_diff(&fa.body, &fb.body), gas_or_plumbing(""));
         let (wa, wb) = (fa.body.iter().filter(|n| is_gas_withdrawal(n)).count(), fb.body.iter().filter(|n| is_gas_withdrawal(n)).count());
         if wa != wb {
             let base = fa.name.split('{').next().unwrap_or(&fa.name);
